@@ -4,6 +4,7 @@ mod types;
 mod util;
 
 use arena::*;
+use bumpalo::Bump;
 use galloc::Fault;
 use std::io::Write;
 use std::sync::Mutex;
@@ -92,6 +93,53 @@ fn run_m(plan: &mut Plan, gen: Option<(Profile, usize)>, sa: usize, fo: usize) -
         8 => run_plan::<8>(plan, gen, sa, fo),
         _ => run_plan::<16>(plan, gen, sa, fo),
     }
+}
+
+/// C04: every way of constructing a `Bump<N>` must refuse an unsupported minimum alignment (not a power of two, or
+/// above `CHUNK_ALIGN` = 16) by panicking, and accept the supported ones.  Each constructor is instantiated for a list
+/// of `N` under `catch_unwind`; an accepted unsupported `N` is also asked for one allocation, whose alignment is reported.
+fn ctor_probe() -> Out {
+    use std::panic::{catch_unwind, AssertUnwindSafe};
+    let mut o = Out { trace: String::new(), oracle_fails: vec![], n_ops: 0, res_kinds: Default::default() };
+    fn supported(n: usize) -> bool {
+        n.is_power_of_two() && n <= 16
+    }
+    macro_rules! probe {
+        ($($n:literal),*) => {$(
+            {
+                let ctors: Vec<(&str, Box<dyn Fn() -> Option<Bump<$n>>>)> = vec![
+                    ("with_min_align", Box::new(|| Some(Bump::<$n>::with_min_align()))),
+                    ("with_min_align_and_capacity(64)", Box::new(|| Some(Bump::<$n>::with_min_align_and_capacity(64)))),
+                    ("try_with_min_align_and_capacity(64)", Box::new(|| Bump::<$n>::try_with_min_align_and_capacity(64).ok())),
+                    ("try_with_min_align_and_capacity(0)", Box::new(|| Bump::<$n>::try_with_min_align_and_capacity(0).ok())),
+                    ("Default::default", Box::new(|| Some(<Bump<$n> as Default>::default()))),
+                    ("Option::unwrap_or_default", Box::new(|| Some(None::<Bump<$n>>.unwrap_or_default()))),
+                ];
+                for (name, c) in ctors {
+                    let r = catch_unwind(AssertUnwindSafe(|| c()));
+                    o.n_ops += 1;
+                    let kind = match &r { Ok(Some(_)) => "ok", Ok(None) => "err", Err(_) => "panic" };
+                    o.trace.push_str(&format!("# ctor {} N={} -> {}\n", name, $n, kind));
+                    *o.res_kinds.entry(format!("ctor:{}", kind)).or_insert(0) += 1;
+                    match (supported($n), &r) {
+                        (false, Ok(Some(b))) => {
+                            let p = catch_unwind(AssertUnwindSafe(|| b.alloc_layout(std::alloc::Layout::from_size_align(1, 1).unwrap()).as_ptr() as usize));
+                            o.oracle_fails.push(format!("ORACLE C04 ctor-accepts-unsupported-min-align plan=0 op=0 ctor={} N={} first-pointer={:?}", name, $n, p.ok().map(|p| p % ($n as usize).max(1))));
+                        }
+                        (false, Ok(None)) => {
+                            o.oracle_fails.push(format!("ORACLE C04 ctor-unsupported-min-align-not-a-panic plan=0 op=0 ctor={} N={}", name, $n));
+                        }
+                        (true, Err(_)) => {
+                            o.oracle_fails.push(format!("ORACLE C04 ctor-rejects-supported-min-align plan=0 op=0 ctor={} N={}", name, $n));
+                        }
+                        _ => {}
+                    }
+                }
+            }
+        )*};
+    }
+    probe!(0, 1, 2, 3, 4, 5, 6, 8, 12, 16, 24, 32, 64, 128, 256);
+    o
 }
 
 fn main() {
@@ -245,9 +293,17 @@ fn main() {
                 }
             }
         }
+        "ctor" => {
+            let o = ctor_probe();
+            emit(o, None, &mut out);
+        }
         "replay" => {
             let path = toks.get(2).expect("replay <file>");
             let text = std::fs::read_to_string(path).expect("read plan file");
+            if text.lines().any(|l| l.trim() == "CTOR") {
+                let o = ctor_probe();
+                emit(o, None, &mut out);
+            }
             for mut plan in Plan::parse(&text) {
                 let o = run_m(&mut plan, None, sa, fo);
                 emit(o, Some(&plan), &mut out);
